@@ -93,7 +93,9 @@ def gen_random(rng, maxn):
             # that has them ('over'), then every query again
             'churn': [[rng.randrange(len(ents)), rng.randrange(n),
                        rng.choice(['toggle', 'over', 'over'])]
-                      for _ in range(rng.choice([0, 0, 1, 2, 3]))]}
+                      for _ in range(rng.choice([0, 0, 1, 2, 3]))],
+            # components are on_add handlers that query the world
+            'watch': rng.random() < 0.35}
 
 
 def gen_scale(rng):
@@ -262,6 +264,31 @@ def run_case(case):
     class CRoot:
         pass
 
+    watch = {'world': None, 'reads': 0}
+    if case.get('watch'):
+        # every component looks at the world from its on_add: the type
+        # queries and the per-entity queries tell one story there too
+        def on_add(self, entity, world):
+            if watch['world'] is not world or res.divs:
+                return
+            watch['reads'] += 1
+            for t, T in enumerate(watch['types']):
+                got = collections.Counter(
+                    (repr(x), id(c)) for x, c in world.get(T))
+                want = collections.Counter(
+                    (repr(x), id(c)) for x in world.entities
+                    for c in world.get_components(x) if isinstance(c, T))
+                res.stats['queries_checked'] += 1
+                if got != want:
+                    res.div(t, 'get-inside-on_add', f'get(D{t}) asked from '
+                            'inside an on_add disagrees with entities/'
+                            'get_components asked at the same moment',
+                            expected=len(want), observed=len(got))
+                    return
+        CRoot.on_add = on_add
+        CRoot = desper.event_handler('on_add')(CRoot)
+        res.tags['components_query_from_on_add'].add(True)
+
     same = case.get('same_names', False)
     falsy_ns = {'bool': {'__bool__': lambda self: False},
                 'len': {'__len__': lambda self: 0}}.get(case.get('falsy'), {})
@@ -308,6 +335,8 @@ def run_case(case):
                 dag=[list(b) for b in effective])
 
     w, comps, procs = build_world()
+    watch['types'] = list(comp_classes)
+    watch['world'] = w      # (from now on: the first queries come first)
     for t in range(n):
         T, PT = comp_classes[t], proc_classes[t]
         # ---- get(T)
@@ -473,6 +502,30 @@ def run_case(case):
     # ---- builtin objects as components (None included): a query by object
     # matches them all, and each remove_component detaches exactly one
     wb = desper.World()
+    # a bare object() among other components, not the first one attached:
+    # a query by `object` matches them all and prefers the exact type
+    tag = object()
+    others = [7, 'y', CRoot()][:1 + len(dag) % 3]
+    et = wb.create_entity(*others, tag)
+    try:
+        one = wb.get_component(et, object)
+        res.stats['queries_checked'] += 1
+        if one is not tag:
+            fail('get_component-exact-first', 'get_component(e, object) on '
+                 'an entity holding a bare object() besides '
+                 f'{[type(o).__name__ for o in others]}', 'the object() '
+                 'instance (exactly the queried type)', repr(one), -2)
+            return _fin(res)
+        gone = wb.remove_component(et, object)
+        res.stats['queries_checked'] += 1
+        if gone is not tag or len(wb.get_components(et)) != len(others):
+            fail('remove_component', 'remove_component(e, object) on that '
+                 'entity', 'the object() instance detached, nothing else',
+                 [repr(gone), len(wb.get_components(et))], -2)
+            return _fin(res)
+    except Exception as ex:
+        fail('query-raised', 'queries by `object` raised', None, repr(ex), -2)
+        return _fin(res)
     builtin = [None, 5, 'x', 2.5, CRoot()][:2 + len(dag) % 4]
     eb = wb.create_entity(*builtin)
     try:
